@@ -511,9 +511,44 @@ func fieldName(t types.Type, idx int) string {
 
 func deref(t types.Type) types.Type {
 	if p, ok := t.Underlying().(*types.Pointer); ok {
-		return p.Elem()
+		return types.Unalias(p.Elem())
 	}
-	return t
+	return types.Unalias(t)
+}
+
+// coreType returns the single underlying type of a type parameter's type set
+// (e.g. string for [T ~string]), or t's own underlying type.
+func coreType(t types.Type) types.Type {
+	tp, ok := types.Unalias(t).(*types.TypeParam)
+	if !ok {
+		return t.Underlying()
+	}
+	iface, _ := tp.Constraint().Underlying().(*types.Interface)
+	if iface == nil {
+		return t.Underlying()
+	}
+	var core types.Type
+	for i := 0; i < iface.NumEmbeddeds(); i++ {
+		switch e := iface.EmbeddedType(i).(type) {
+		case *types.Union:
+			for j := 0; j < e.Len(); j++ {
+				u := e.Term(j).Type().Underlying()
+				if core != nil && !types.Identical(core, u) {
+					return t.Underlying()
+				}
+				core = u
+			}
+		default:
+			u := e.Underlying()
+			if _, isI := u.(*types.Interface); !isI {
+				core = u
+			}
+		}
+	}
+	if core == nil {
+		return t.Underlying()
+	}
+	return core
 }
 
 // Strip removes value-preserving wrappers (interface boxing, type changes,
@@ -668,7 +703,7 @@ func FieldStoresOf(fn *ssa.Function, named *types.Named) []FieldStore {
 			if !ok {
 				return
 			}
-			if n, ok := deref(fa.X.Type()).(*types.Named); ok && n.Origin() == named.Origin() {
+			if n, ok := types.Unalias(deref(fa.X.Type())).(*types.Named); ok && n.Origin() == named.Origin() {
 				out = append(out, FieldStore{fieldName(fa.X.Type(), fa.Field), st, fa, f})
 			}
 		})
